@@ -204,7 +204,7 @@ def unit_gather(S):
         with extract.patched((jr, "choice", choice_stub)):
             smp = run(ctx2, lambda b_, kk: b_.sample(B, key=kk), buf2, k)
         ch = [c for c in ctx2.calls if c.name.startswith("choice[")]
-        S.fact(f"sample[pytree={pytree}]/choice-without-replacement", len(ch) == 1 and ch[0].name == "choice[replace=False,p=no]", function=F_S, what="sample draws distinct indices (replace=False)")
+        S.fact(f"sample[pytree={pytree}]/choice-without-replacement", len(ch) == 1 and ch[0].name == "choice[replace=False,p=no]", shape=False, function=F_S, what="sample draws distinct indices (replace=False)")
         if len(ch) == 1:
             cidx = ch[0].outputs[0]
             Nz2, Bz2 = ctx2.dim(N), ctx2.dim(B)
